@@ -330,6 +330,14 @@ fn simple_case(s: &mut Session, g: &SG, group: &'static str) -> Option<Vec<u8>> 
     s.case("g.read", format!("g.read {}", hex(&bytes)), show_glyph_read(&bytes));
     // oracle: round trip on the real code
     let pts: Vec<(i16, i16, bool)> = g.contours.iter().flatten().copied().collect();
+    // a glyph with more than 65535 points cannot be represented (u16 end points, maxp.maxPoints):
+    // it must not be accepted (before the fix: commit the end points wrapped silently)
+    s.oracle(
+        "more-than-65535-points-rejected",
+        pts.len() <= 65535,
+        || format!("{} points in {} contours", pts.len(), g.contours.len()),
+        || format!("accepted, wrote {} bytes", bytes.len()),
+    );
     if pts.len() <= 65535 {
         let ok = catch(|| {
             let r = match rglyf::SimpleGlyph::read(FontData::new(&bytes)) {
